@@ -32,7 +32,7 @@ INT, RAT, BOOL, PROP, STR = "Int", "Rat", "Bool", "Prop", "String"
 
 
 def LIST(t):
-    return "List " + t
+    return "List " + (f"({t})" if " " in t else t)
 
 
 def is_list(t):
@@ -40,7 +40,8 @@ def is_list(t):
 
 
 def elem(t):
-    return t[5:]
+    t = t[5:]
+    return t[1:-1] if t.startswith("(") and t.endswith(")") else t
 
 
 class Fn:
@@ -87,6 +88,8 @@ class Fn:
             return f"(decide {s})"
         if t == BOOL and want == PROP:
             return f"({s} = true)"
+        if t == LIST(INT) and want == LIST(RAT):
+            return f"(({s}).map (fun (z : Int) => (z : Rat)))"
         raise Untranslatable(f"cannot coerce {t} to {want}: {s}")
 
     def unify_num(self, a, ta, b, tb):
@@ -245,6 +248,10 @@ class Fn:
             x = self.fresh("x")
             s, t = self.compare(op, x, elem(ta), b, tb)
             return f"(({a}).map (fun {x} => {self.val(s, t)}))", LIST(BOOL)
+        if is_list(ta) and is_list(tb) and self.column:
+            x, y = self.fresh("x"), self.fresh("y")
+            s, t = self.compare(op, x, elem(ta), y, elem(tb))
+            return f"(List.zipWith (fun {x} {y} => {self.val(s, t)}) ({a}) ({b}))", LIST(BOOL)
         if ta == STR and tb == STR:
             o = {ast.Eq: "=", ast.NotEq: "≠"}.get(type(op))
             if o is None:
@@ -273,6 +280,9 @@ class Fn:
             return f"(Py.whereTrue {m})", LIST("Nat")
         v, tv = self.expr(e.value, env, pre)
         if isinstance(e.slice, ast.Slice):
+            sl = e.slice
+            if sl.lower is None and sl.step is None and is_list(tv) and ast.unparse(sl.upper or ast.Constant(value=None)) == "-1":
+                return f"(({v}).dropLast)", tv  # X[:-1]
             raise Untranslatable("slice")
         i, ti = self.expr(e.slice, env, pre)
         if is_list(tv) and ti == LIST(BOOL):
@@ -282,6 +292,12 @@ class Fn:
     def call(self, e, env, pre):
         f = ast.unparse(e.func)
         args = e.args
+        if f in self.extern:
+            return self.extern_call(e, f, env, pre)
+        if self.column:
+            r = self.column_call(e, f, env, pre)
+            if r is not None:
+                return r
         if e.keywords:
             raise Untranslatable(f"keyword arguments in {f}")
 
@@ -392,6 +408,87 @@ class Fn:
             return "(" + " ".join([sp["lean"]] + self_args + parts) + ")", sp["ret"]
         raise Untranslatable(f"call {f}")
 
+    def extern_call(self, e, f, env, pre):
+        """spec["extern"][f] = dict(lean=.., args=[types], ret=type, kwargs={name: "arg" | required literal}):
+        a call that is not translated but passed on to a named Lean function (usually a *parameter* of the generated
+        definition, so the theorems quantify over it).  A keyword mapped to "arg" is appended positionally, a keyword
+        mapped to a literal must be present with exactly that value (e.g. axis=0) and is dropped; positional arguments
+        listed in `skip` are dropped (the metric object, which the Lean side represents by function parameters)."""
+        ex = self.extern[f]
+        kw = {k.arg: k.value for k in e.keywords}
+        parts = [self.expr(a, env, pre) for k, a in enumerate(e.args) if k not in ex.get("skip", ())]
+        for name, how in ex.get("kwargs", {}).items():
+            if how == "arg":
+                if name in kw:
+                    parts.append(self.expr(kw.pop(name), env, pre))
+            else:
+                v = kw.pop(name, None)
+                if not (isinstance(v, ast.Constant) and v.value == how and type(v.value) is type(how)):
+                    raise Untranslatable(f"{f}: keyword {name}={how!r} required")
+        if kw:
+            raise Untranslatable(f"{f}: unexpected keywords {sorted(kw)}")
+        want = ex["args"]
+        if len(parts) != len(want):
+            raise Untranslatable(f"arity of {f}")
+        strs = [self.coerce(s, t, w) for (s, t), w in zip(parts, want)]
+        return "(" + " ".join([ex["lean"]] + strs) + ")", ex["ret"]
+
+    def column_call(self, e, f, env, pre):
+        """spec["column"]: the arrays are ONE location's column of a [time, i, j] dataset (a list over time).
+        Reductions over axis 0 reduce the list; `np.all` / `np.any` over the per-location results are the identity
+        on the single location (the grid-level reading is modelled by hand in Model.Evaluate.gridEval)."""
+        kw = {k.arg: k.value for k in e.keywords}
+        args = e.args
+
+        def axis0():
+            v = kw.get("axis")
+            return set(kw) == {"axis"} and isinstance(v, ast.Constant) and v.value == 0
+
+        if f in ("np.all", "np.any") and len(args) == 1 and not kw:
+            s, t = self.expr(args[0], env, pre)
+            if t in (PROP, BOOL):
+                return s, t
+            if t == LIST(BOOL):
+                return f"(({s}).{'all' if f == 'np.all' else 'any'} id)", BOOL
+            raise Untranslatable(f"{f} on {t}")
+        if f == "np.einsum" and len(args) == 2 and not kw and isinstance(args[0], ast.Constant) and args[0].value == "ijk -> jk":
+            s, t = self.expr(args[1], env, pre)
+            if t in (LIST(INT), LIST(RAT)):
+                return f"(({s}).sum)", elem(t)
+            raise Untranslatable(f"np.einsum on {t}")
+        if f == "np.sum" and len(args) == 1 and axis0():
+            s, t = self.expr(args[0], env, pre)
+            if t in (LIST(INT), LIST(RAT)):
+                return f"(({s}).sum)", elem(t)
+            raise Untranslatable(f"np.sum on {t}")
+        if f == "np.stack" and len(args) == 1 and axis0():
+            s, t = self.expr(args[0], env, pre)
+            if t in (LIST(INT), LIST(RAT)):
+                return s, t  # a list of per-location scalars stacked along axis 0 is that list
+            raise Untranslatable(f"np.stack on {t}")
+        if f == "np.cumsum" and len(args) == 1 and not kw:
+            s, t = self.expr(args[0], env, pre)
+            if t == LIST(INT):
+                return f"(Py.cumsum {s})", t
+            raise Untranslatable(f"np.cumsum on {t}")
+        if f == "np.split" and len(args) == 2 and axis0():
+            s, t = self.expr(args[0], env, pre)
+            i, ti = self.expr(args[1], env, pre)
+            if is_list(t) and ti == LIST(INT):
+                return f"(Py.splitAtIdx {s} {i})", LIST(t)
+            raise Untranslatable(f"np.split on {t} / {ti}")
+        if f == "len" and len(args) == 1 and not kw:
+            s, t = self.expr(args[0], env, pre)
+            if is_list(t):
+                return f"((({s}).length : Nat) : Int)", INT
+            raise Untranslatable(f"len of {t}")
+        if isinstance(e.func, ast.Attribute) and e.func.attr == "astype" and len(args) == 1 and not kw and ast.unparse(args[0]) == "int":
+            s, t = self.expr(e.func.value, env, pre)
+            if t == LIST(BOOL):
+                return f"(({s}).map (fun b => if b then (1 : Int) else 0))", LIST(INT)
+            raise Untranslatable(f".astype(int) on {t}")
+        return None
+
     # ------------------------------------------------------------------ statements
     def ret_wrap(self, s):
         return f"(.ok {s})" if self.wrap else s
@@ -423,6 +520,60 @@ class Fn:
         if isinstance(st, ast.Raise):
             exc = st.exc.func.id if isinstance(st.exc, ast.Call) else ast.unparse(st.exc)
             return pad + f'(.error "{exc}")\n'
+        if self.column and isinstance(st, ast.Assign) and len(st.targets) == 1:
+            tg0, v0 = st.targets[0], st.value
+            # `u, counts = np.unique(x, return_counts=True)`
+            if (isinstance(tg0, ast.Tuple) and len(tg0.elts) == 2 and all(isinstance(x, ast.Name) for x in tg0.elts)
+                    and isinstance(v0, ast.Call) and ast.unparse(v0.func) == "np.unique" and len(v0.args) == 1
+                    and [(k.arg, ast.unparse(k.value)) for k in v0.keywords] == [("return_counts", "True")]):
+                s, t = self.expr(v0.args[0], env, pre)
+                if t != LIST(INT):
+                    raise Untranslatable("np.unique on " + t)
+                env = dict(env)
+                out = self.lets(pre, pad)
+                if tg0.elts[0].id != "_":
+                    env[tg0.elts[0].id] = LIST(INT)
+                    out += pad + f"let {tg0.elts[0].id} : List Int := Py.uniqueSorted {s}\n"
+                env[tg0.elts[1].id] = LIST(INT)
+                out += pad + f"let {tg0.elts[1].id} : List Int := Py.uniqueCounts {s}\n"
+                return out + self.block(rest, env, ind)
+            # `X = list()` directly followed by `for i in range(len(Y)): X.append(E)` with Y used as Y[i] only
+            if (isinstance(tg0, ast.Name) and isinstance(v0, ast.Call) and ast.unparse(v0) in ("list()", "[]") and rest
+                    and isinstance(rest[0], ast.For)):
+                loop = rest[0]
+                ok = (isinstance(loop.target, ast.Name) and not loop.orelse and len(loop.body) == 1
+                      and isinstance(loop.iter, ast.Call) and ast.unparse(loop.iter.func) == "range" and len(loop.iter.args) == 1
+                      and isinstance(loop.iter.args[0], ast.Call) and ast.unparse(loop.iter.args[0].func) == "len"
+                      and len(loop.iter.args[0].args) == 1 and isinstance(loop.iter.args[0].args[0], ast.Name))
+                body = loop.body[0] if ok else None
+                ok = ok and (isinstance(body, ast.Expr) and isinstance(body.value, ast.Call)
+                             and ast.unparse(body.value.func) == tg0.id + ".append" and len(body.value.args) == 1 and not body.value.keywords)
+                if not ok:
+                    raise Untranslatable("for loop shape: " + ast.unparse(loop)[:60])
+                i, Y = loop.target.id, loop.iter.args[0].args[0].id
+                if Y not in env or not is_list(env[Y]):
+                    raise Untranslatable(f"loop over len({Y})")
+                y = self.fresh("y")
+
+                class Sub(ast.NodeTransformer):
+                    def visit_Subscript(self, n):
+                        if isinstance(n.value, ast.Name) and n.value.id == Y and isinstance(n.slice, ast.Name) and n.slice.id == i:
+                            return ast.Name(id=y)
+                        return self.generic_visit(n)
+
+                E = Sub().visit(ast.parse(ast.unparse(body.value.args[0]), mode="eval").body)
+                if any(isinstance(n, ast.Name) and n.id in (i, Y, tg0.id) for n in ast.walk(E)):
+                    raise Untranslatable("loop body uses the index / the lists other than as Y[i]")
+                env2 = dict(env)
+                env2[y] = elem(env[Y])
+                pre2 = []
+                b, tb = self.expr(E, env2, pre2)
+                if pre2:
+                    raise Untranslatable("walrus / partial operation inside loop body")
+                b, tb = self.val(b, tb), self.valt(tb)
+                env = dict(env)
+                env[tg0.id] = LIST(tb)
+                return pad + f"let {tg0.id} : {LIST(tb)} := (({Y}).map (fun {y} => {b}))\n" + self.block(rest[1:], env, ind)
         if isinstance(st, ast.Assign):
             if len(st.targets) != 1:
                 raise Untranslatable("multiple assignment targets")
